@@ -770,7 +770,14 @@ class Kernel:
             if e.keywords or len(e.args) != len(argt):
                 raise Unsupported(f"call shape of {path}")
             args = []
-            for a, want in zip(e.args, argt):
+            root = path.split(".")[0]
+            if "." in path and self.aliases.get(root, root) in env and isinstance(f, ast.Attribute):
+                # a method of a LOCAL object (a loop variable …): the receiver is the first argument of the parameter function
+                rt, rty_ = self.expr(f.value, env, binds)
+                args.append(rt)
+                argt = [rty_] + list(argt)
+                e = ast.Call(func=e.func, args=[f.value] + list(e.args), keywords=[])
+            for a, want in zip(e.args[len(args):], argt[len(args):]):
                 if want == "skip":
                     continue                      # an object argument the callee only uses for what the kernel's theorem supplies separately
                 t, ty = self.expr(a, env, binds)
